@@ -34,7 +34,9 @@ Record case := mkCase {
   c_conds : list cond;
   c_pats  : list (list bool);
   o_m0 : trace; o_m1 : trace; o_n0 : trace; o_n1 : trace;
-  o_pats : list (nat * trace * trace) }.
+  o_pats : list (nat * trace * trace);
+  c_sched : list bool;             (* include_private setting before each next() *)
+  o_m_sw : trace; o_n_sw : trace }.
 
 Definition model_m (rules : list rule) (c : ctx) (inc : bool) : trace :=
   drain (is_priv rules) (include_private (matching_iter rules c) inc).
@@ -46,8 +48,13 @@ Definition model_p (pats : list bool) (inc : bool) : trace :=
   | Some (tr, fin) => Some (map (fun x => (fst x, fst (snd x))) tr, fin)
   end.
 
+Definition model_sw (rules : list rule) (it : iter nat) (sched : list bool) : trace :=
+  drain_sched (is_priv rules) (S (length (rem it))) it sched.
+
 Definition check_case (k : case) : bool :=
   let c := scan_rules (c_rules k) (verdict_of (c_conds k)) in
+  trace_eqb (model_sw (c_rules k) (matching_iter (c_rules k) c) (c_sched k)) (o_m_sw k) &&
+  trace_eqb (model_sw (c_rules k) (nonmatching_iter (c_rules k) c) (c_sched k)) (o_n_sw k) &&
   trace_eqb (model_m (c_rules k) c false) (o_m0 k) &&
   trace_eqb (model_m (c_rules k) c true) (o_m1 k) &&
   trace_eqb (model_n (c_rules k) c false) (o_n0 k) &&
@@ -81,7 +88,21 @@ Fixpoint list_nat_eqb (a b : list nat) : bool :=
   | x :: a', y :: b' => Nat.eqb x y && list_nat_eqb a' b'
   | _, _ => false
   end.
+(* with include_private switched mid-iteration: no panic, final len 0, and the
+   len announced before a call never under-counts what the rest of the trace
+   yields under a constant setting from there on (exact when the schedule is
+   over) *)
+Fixpoint sw_ok (tr : list (Z * nat)) (sched_left : nat) : bool :=
+  match tr with
+  | [] => true
+  | (l, _) :: tr' =>
+      (if Nat.leb sched_left 1 then Z.eqb l (Z.of_nat (length tr)) else Z.leb 1 l) && sw_ok tr' (pred sched_left)
+  end.
+Definition trace_sw_ok (t : trace) (n : nat) : bool :=
+  match t with None => false | Some (tr, fin) => sw_ok tr n && Z.eqb fin 0 end.
+
 Definition spec_case (k : case) : bool :=
+  trace_sw_ok (o_m_sw k) (length (c_sched k)) && trace_sw_ok (o_n_sw k) (length (c_sched k)) &&
   trace_exact (o_m0 k) && trace_exact (o_m1 k) && trace_exact (o_n0 k) && trace_exact (o_n1 k) &&
   forallb (fun o => let '(_, t0, t1) := o in trace_exact t0 && trace_exact t1) (o_pats k) &&
   (* partition, private rules included *)
